@@ -51,6 +51,9 @@ type Gen struct {
 	Lats   []float64
 	Lons   []float64
 	NoPool bool
+	// PoolBias (percent): LatLon and polygon vertices reuse remembered object
+	// coordinates with this probability (used for query areas).
+	PoolBias int
 }
 
 // RandomRegion picks a region class.
@@ -167,6 +170,9 @@ func (g *Gen) RawLatLon() (lat, lon float64) {
 
 // LatLon draws a coordinate pair and remembers it.
 func (g *Gen) LatLon() (lat, lon float64) {
+	if g.PoolBias > 0 && len(g.Lats) > 0 && g.Rng.Intn(100) < g.PoolBias {
+		return g.PoolLat(), g.PoolLon()
+	}
 	lat, lon = g.RawLatLon()
 	g.remember(lat, lon)
 	return
@@ -260,6 +266,14 @@ func (g *Gen) star(lat, lon, radius float64, n int, jag float64, scale float64) 
 		lo := clamp(lon+rr*math.Cos(a), -180, 180)
 		if scale == 1 && g.Rng.Intn(4) == 0 {
 			la, lo = clamp(g.hostile(la), -90, 90), clamp(g.hostile(lo), -180, 180)
+		}
+		if scale == 1 && g.PoolBias > 0 && len(g.Lats) > 0 && g.Rng.Intn(8) == 0 {
+			// one coordinate of the vertex coincides with an object coordinate
+			if g.Rng.Intn(2) == 0 {
+				la = g.PoolLat()
+			} else {
+				lo = g.PoolLon()
+			}
 		}
 		pts = append(pts, [2]float64{la, lo})
 	}
